@@ -134,8 +134,10 @@ class _Emitter:
   def _ch2_group(self):
     r = self.rng
     seq = []
-    kind = r.randrange(4)
-    if kind == 0:      # a channel-2 pop-on caption
+    kind = r.randrange(5)
+    if kind == 4:      # field-2 forms of the miscellaneous control codes (15xx / 1Dxx): belong to neither CC1 nor CC2
+      seq += [r.choice([0x1500, 0x1D00]) | r.choice([0x20, 0x21, 0x24, 0x25, 0x26, 0x27, 0x29, 0x2C, 0x2D, 0x2E, 0x2F])]
+    elif kind == 0:      # a channel-2 pop-on caption
       seq += [0x1C20, pac(r.choice([13, 14, 15]), indent=r.choice([0, 4, 8]), chan=2)]
       seq += self._ch2_text(r.randrange(2, 9)) + [0x1C2F]
     elif kind == 1:    # channel-2 roll-up row
